@@ -414,6 +414,42 @@ def compat_layer(ck):
                     w = LasWriter(io.BytesIO(), h, closefd=False)
                     return w.header
                 record(f"hdr writer {v} {f}", run(writer), f"LasWriter(header 1.{v}/{f})")
+                if f not in SPEC_COMPAT.get(v, []):
+                    # the refusal leaves nothing behind: no byte of the incompatible header reaches the destination,
+                    # through the writer, through LasData.write on a stream and on a path
+                    import os
+                    import tempfile
+                    from laspy.laswriter import LasWriter
+                    h = LasHeader(point_format=f)
+                    h._version = Version(1, v)
+                    for how in ("LasWriter", "LasData.write(stream)", "LasData.write(path)"):
+                        dest = io.BytesIO()
+                        tmp = None
+                        try:
+                            if how == "LasWriter":
+                                LasWriter(dest, h, closefd=False)
+                            else:
+                                lasx = laspy.LasData(h)
+                                if how.endswith("(path)"):
+                                    tmp = tempfile.mkdtemp(prefix="verif_c07_")
+                                    lasx.write(os.path.join(tmp, "x.las"))
+                                else:
+                                    lasx.write(dest)
+                            ck.fail(f"{how} accepted the incompatible pair version 1.{v} / point format {f}", {"kind": "compat", "call": f"{how} {v} {f}", "finding_key": "C07:compat"})
+                        except LaspyException:
+                            pass
+                        except Exception as e:
+                            ck.count("incompatible_write_raised:" + type(e).__name__)
+                        written = dest.getvalue()
+                        if tmp is not None:
+                            pth = os.path.join(tmp, "x.las")
+                            written = open(pth, "rb").read() if os.path.exists(pth) else b""
+                            import shutil
+                            shutil.rmtree(tmp, ignore_errors=True)
+                        ck.count("incompatible_write_refused")
+                        if written:
+                            ck.fail(f"{how} refused the incompatible pair version 1.{v} / point format {f} but {len(written)} bytes of that header "
+                                    f"were written to the destination", {"kind": "compat", "call": f"{how} {v} {f}", "written": len(written)})
     out = ck.driver(lines)
     bad = None
     if out is None:
